@@ -60,10 +60,10 @@ func runC43(c *Ctx) {
 			continue
 		}
 		fl := NewFlow(c.P).
-			Edge("no-sticky-error", ZeroGuard("i.err")).
+			Edge("no-sticky-error", ZeroGuard("recv.err")).
 			Edge("no-sticky-error", NilErrGuard(CallPred("Error", "")))
 		res := fl.Analyze(fn, emptyState())
-		moves := Or(MethodOn("Next", "i.iter"), MethodOn("Prev", "i.iter"), MethodOn("NextPrefix", "i.iter"),
+		moves := Or(MethodOn("Next", "recv.iter"), MethodOn("Prev", "recv.iter"), MethodOn("NextPrefix", "recv.iter"),
 			CallTo("p.(*Iterator).findNextEntry", "p.(*Iterator).findPrevEntry", "p.(*Iterator).nextUserKey", "p.(*Iterator).prevUserKey", "p.(*Iterator).nextPrefix"))
 		k := c.Require("C43.O1", res, moves, "the iterator is repositioned only while no error is latched", []string{"no-sticky-error"})
 		if k == 0 {
@@ -266,8 +266,26 @@ func runC43N1(c *Ctx) {
 				}
 				return false
 			}
+			consult := func(in ssa.Instruction) bool {
+				if sameIter(in, "Error") {
+					return true
+				}
+				if sameIter(in, "Close") {
+					if call, ok := in.(*ssa.Call); ok {
+						return call.Referrers() != nil && len(*call.Referrers()) > 0
+					}
+				}
+				return false
+			}
+			// "error-consulted": Error() was called after the latest positioning call, so a nil
+			// test that follows it raises no new obligation (`if err := it.Error(); …; if kv == nil`).
 			fl := NewFlow(c.P).
-				KillEdge("exhaustion-confirmed", nilTest).
+				After("error-consulted", Pred("Error()/Close() on "+p, consult)).
+				KillAfter("error-consulted", Pred("positioning call on "+p, func(in ssa.Instruction) bool {
+					call, ok := in.(*ssa.Call)
+					return ok && isPos(call)
+				})).
+				KillEdgeUnless("exhaustion-confirmed", nilTest, "error-consulted").
 				After("exhaustion-confirmed", Pred("Error()/Close() on "+p, func(in ssa.Instruction) bool {
 					if sameIter(in, "Error") {
 						return true
